@@ -658,6 +658,10 @@ class Lib:
                     return r
                 out.append((True, r.payload[0]))
             return ok(RVec(out))
+        if kind == 'status' and hasattr(I.world, 'status_of_killed'):
+            r = I.world.status_of_killed(I, f.get('proc'), node)
+            if r is not None:
+                return r
         sid = node['_id']
         if I.trace_pos < len(I.trace) and I.trace[I.trace_pos][0] == sid:
             _, arm, value = I.trace[I.trace_pos]
